@@ -141,13 +141,59 @@ func c05ExecPNames(c c05Case, o *core.Obs) {
 // selfrec part: a component that includes itself through its own shorthand tag
 // (a tree), compared with the same component written with <template include>.
 
-func c05NSelfRec() int { return 2 * 2 }
+func c05NSelfRec() int { return 2 * 4 }
 
 func c05GenSelfRec(i int) c05Case {
-	return c05Case{Part: "selfrec", Entry: []string{"tpl", "vue"}[i%2], PN: &c05PN{Form: []string{"short", "include"}[(i/2)%2]}}
+	return c05Case{Part: "selfrec", Entry: []string{"tpl", "vue"}[i%2], PN: &c05PN{Form: []string{"short", "include", "nest-short", "nest-include"}[(i/2)%4]}}
+}
+
+// nest forms: a shorthand tag written in the content supplied to another
+// shorthand tag (directly and inside an element), against the include spelling.
+func c05ExecNestShort(c c05Case, o *core.Obs) {
+	page := `<x-card t="T"><x-badge :n="x">new {{ x }}</x-badge><p data-m="p"><x-badge n="in-p">deep</x-badge></p></x-card>`
+	if c.PN.Form == "nest-include" {
+		page = `<template include="components/XCard.vuego" t="T"><template include="components/XBadge.vuego" :n="x">new {{ x }}</template><p data-m="p"><template include="components/XBadge.vuego" n="in-p">deep</template></p></template>`
+	}
+	files := map[string]string{"page.vuego": page,
+		"components/XCard.vuego":  `<div data-m="card" :data-t="t"><slot>fd</slot></div>`,
+		"components/XBadge.vuego": `<span data-m="badge" :data-n="n"><slot>fb</slot></span>`}
+	data := map[string]any{"x": "X"}
+	var b bytes.Buffer
+	var err error
+	fsys := memFS(files)
+	if c.Entry == "vue" {
+		v := vuego.NewVue(fsys)
+		v.RegisterComponent("x-card", "components/XCard.vuego")
+		v.RegisterComponent("x-badge", "components/XBadge.vuego")
+		err = v.Render(&b, "page.vuego", data)
+	} else {
+		err = vuego.NewFS(fsys, vuego.WithComponents()).Load("page.vuego").Fill(data).Render(bg, &b)
+	}
+	o.Evals++
+	o.NT("selfrec", c.Entry, c.PN.Form)
+	o.Cell("part/selfrec/" + c.PN.Form)
+	sig := "selfrec/" + c.PN.Form
+	if err != nil {
+		o.Fail(c, sig+"/error", "render failed: %v\npage: %s", err, page)
+		return
+	}
+	var got []string
+	doc := oracle.ParseAuto(b.String())
+	for _, n := range doc.ByAttr("data-m", "badge") {
+		d, _ := n.Attr("data-n")
+		got = append(got, d+":"+strings.TrimSpace(n.InnerText()))
+	}
+	want := "X:new X in-p:deep"
+	if strings.Join(got, " ") != want || len(doc.ByAttr("data-m", "card")) != 1 {
+		o.Fail(c, sig+"/component-in-slot-content-not-rendered", "a component tag in the content supplied to another component (%s spelling): want badges %q inside one card, got %q\npage: %s\noutput: %s", c.PN.Form, want, strings.Join(got, " "), page, clip(b.String(), 700))
+	}
 }
 
 func c05ExecSelfRec(c c05Case, o *core.Obs) {
+	if strings.HasPrefix(c.PN.Form, "nest-") {
+		c05ExecNestShort(c, o)
+		return
+	}
 	kid := `<tree-node v-for="k in node.kids" :node="k" :depth="k.name"></tree-node>`
 	if c.PN.Form == "include" {
 		kid = `<template include="components/TreeNode.vuego" v-for="k in node.kids" :node="k" :depth="k.name"></template>`
